@@ -87,12 +87,17 @@ pub enum Placement {
     /// imported by an OID written with name-only components ({ iso standard 4242 }) while a module of another name,
     /// whose OID differs in the name-only components only ({ itu-t recommendation 4242 }), defines other values
     SiblingByNameFormOidWithDecoy,
+    /// imported by OID { 1 2 3 } while modules with the OIDs { 1 2 } and { 1 2 3 4 } (a prefix and an extension of it)
+    /// define the same names with other values
+    SiblingByOidWithPrefixDecoys,
+    /// imported from `Mid`, which defines nothing itself and imports the names from `Sib`
+    SiblingThroughIntermediate,
     /// imported from `SibModule` while a module `Sib` (the same name without the suffix that the front end strips
     /// from module names) defines the same names with other values
     SiblingWithModuleSuffixAndDecoyWithout,
 }
 
-pub const PLACEMENTS: [Placement; 10] = [
+pub const PLACEMENTS: [Placement; 12] = [
     Placement::LocalBefore,
     Placement::LocalAfter,
     Placement::SiblingByName,
@@ -103,6 +108,8 @@ pub const PLACEMENTS: [Placement; 10] = [
     Placement::SiblingByNameWithUnrelatedModule,
     Placement::SiblingByNameFormOidWithDecoy,
     Placement::SiblingWithModuleSuffixAndDecoyWithout,
+    Placement::SiblingByOidWithPrefixDecoys,
+    Placement::SiblingThroughIntermediate,
 ];
 
 fn fill(t: &str, vals: &[String]) -> String {
@@ -128,7 +135,7 @@ pub fn build(base: &Base, replaced: &[usize], p: Placement) -> Vec<(String, Stri
 
 /// value reference names that look like reserved words in another letter case (valuereferences start with a
 /// lower-case letter; the reserved words MAX, MIN, SIZE, TRUE, ... are upper case: X.680 12.38)
-pub const ODD_NAMES: [[&str; 2]; 6] = [["max", "min"], ["min", "max"], ["mAX", "mIN"], ["size", "of"], ["true", "false"], ["optional", "default"]];
+pub const ODD_NAMES: [[&str; 2]; 10] = [["max", "min"], ["min", "max"], ["mAX", "mIN"], ["size", "of"], ["true", "false"], ["optional", "default"], ["end", "begin"], ["imports", "from"], ["integer", "sequence"], ["definitions", "tags"]];
 
 pub fn build_named(base: &Base, replaced: &[usize], p: Placement, names_for_sites: &[&str]) -> Vec<(String, String)> {
     let text = build_plain(base, replaced, p);
@@ -184,6 +191,17 @@ fn build_plain(base: &Base, replaced: &[usize], p: Placement) -> Vec<(String, St
             ("Main".into(), format!("Main {header}\nIMPORTS {} FROM Sib {{ iso standard 4242 }};\n{body}\nEND\n", names.join(", "))),
             ("Sib".into(), format!("Sib {{ iso standard 4242 }} {header}\n{}END\n", defs(false))),
             ("Legacy".into(), format!("Legacy {{ itu-t recommendation 4242 }} {header}\n{}END\n", defs(true))),
+        ],
+        Placement::SiblingByOidWithPrefixDecoys => vec![
+            ("Main".into(), format!("Main {header}\nIMPORTS {} FROM Sib {{ 1 2 3 }};\n{body}\nEND\n", names.join(", "))),
+            ("Sib".into(), format!("Sib {{ 1 2 3 }} {header}\n{}END\n", defs(false))),
+            ("Arc-above".into(), format!("Arc-above {{ 1 2 }} {header}\n{}END\n", defs(true))),
+            ("Sib-amd".into(), format!("Sib-amd {{ 1 2 3 4 }} {header}\n{}END\n", defs(true))),
+        ],
+        Placement::SiblingThroughIntermediate => vec![
+            ("Main".into(), format!("Main {header}\nIMPORTS {} FROM Mid;\n{body}\nEND\n", names.join(", "))),
+            ("Mid".into(), format!("Mid {header}\nIMPORTS {} FROM Sib;\nEND\n", names.join(", "))),
+            ("Sib".into(), format!("Sib {header}\n{}END\n", defs(false))),
         ],
         Placement::SiblingWithModuleSuffixAndDecoyWithout => vec![
             ("Main".into(), format!("Main {header}\nIMPORTS {} FROM SibModule;\n{body}\nEND\n", names.join(", "))),
@@ -394,7 +412,7 @@ pub fn run(args: &Args) -> ! {
     for (k, (n, f)) in agg {
         report.merge(k, n, f);
     }
-    let resolutions: u64 = work.iter().map(|w| match w.placement { Placement::SiblingByOidWithDecoy | Placement::SiblingByNameWithUnrelatedModule | Placement::SiblingByNameFormOidWithDecoy | Placement::SiblingWithModuleSuffixAndDecoyWithout => 6, Placement::LocalBefore | Placement::LocalAfter => 1, _ => 2 }).sum();
+    let resolutions: u64 = work.iter().map(|w| match w.placement { Placement::SiblingByOidWithDecoy | Placement::SiblingByNameWithUnrelatedModule | Placement::SiblingByNameFormOidWithDecoy | Placement::SiblingWithModuleSuffixAndDecoyWithout | Placement::SiblingThroughIntermediate => 6, Placement::SiblingByOidWithPrefixDecoys => 24, Placement::LocalBefore | Placement::LocalAfter => 1, _ => 2 }).sum();
     let mut cov = Map::new();
     cov.insert("exhaustive".into(), json!(true));
     cov.insert("evaluations".into(), json!(resolutions + neg_evals));
